@@ -187,7 +187,15 @@ fn case_strategy(n: u32) -> BoxedStrategy<(u64, Vec<u64>, u8)> {
         ]
     };
     let x = move || prop_oneof![8 => gen::real_bits(n), 1 => gen::bits(n)];
-    (x(), proptest::collection::vec(coef(), 57), 0u8..4).boxed()
+    // powers of two everywhere: sums of a few single bits, i.e. exact ties and "tie + one distant bit"
+    let es = if n == 8 { 0 } else if n == 16 { 1 } else { 2 };
+    let ms = gen::max_scale(n, es);
+    let p2 = move || (-(ms / 2)..=(ms / 2), any::<bool>(), 0u8..8).prop_map(move |(s, neg, z)| if z == 0 { 0 } else { gen::make(n, es, neg, s, 0) });
+    prop_oneof![
+        3 => (x(), proptest::collection::vec(coef(), 57), 0u8..4),
+        1 => (p2(), proptest::collection::vec(p2(), 57), 0u8..4),
+    ]
+    .boxed()
 }
 
 fn section<P: PolyT>(rep: &mut Report, cases: u64) {
@@ -214,7 +222,7 @@ pub fn run(rep: &mut Report) {
         a
     };
     super::run_corpus(rep, replay);
-    let g = tier.pick(15_000, 600_000);
+    let g = tier.pick(60_000, 1_200_000);
     section::<P8E0>(rep, g);
     section::<P16E1>(rep, g);
     section::<P32E2>(rep, g);
